@@ -35,6 +35,7 @@ def run_property(prop, tier, repo, evidence_path=None, quiet=False, write=True):
     except ImportError as e:
         say("ANALYSIS-ERROR property=%s no checker module: %s" % (prop, e))
         return 2, [], None, out
+    incomplete = None
     try:
         prog = Program(repo)
         res = Resolver(prog)
@@ -52,6 +53,7 @@ def run_property(prop, tier, repo, evidence_path=None, quiet=False, write=True):
         # violations already established remain violations; the rest of the
         # analysis could not be carried out on this tree
         say("ANALYSIS-INCOMPLETE property=%s %s (reporting the violations found before)" % (prop, e))
+        incomplete = str(e)
     except Exception as e:  # a crash of the checker is never a verdict
         say("ANALYSIS-ERROR property=%s internal error: %r" % (prop, e))
         if not quiet:
@@ -98,6 +100,10 @@ def run_property(prop, tier, repo, evidence_path=None, quiet=False, write=True):
             len(new), getattr(mod, "LEVEL", "other"), ctx.extra,
             getattr(mod, "ASSUMPTIONS", []), getattr(mod, "NOT_DECIDED", []),
             getattr(mod, "EXPLANATION", ""), evidence_path)
+    if code == 0 and incomplete is not None:
+        # only recorded (known) findings were established before the analysis broke off: that is neither a pass nor a new violation
+        say("ANALYSIS-ERROR property=%s %s" % (prop, incomplete))
+        code = 2
     if code == 0:
         say("OK property=%s held on everything analysed (%.2fs)" % (prop, time.time() - t0))
     ctx.all_findings = findings
